@@ -227,9 +227,10 @@ theorem wordCandidateLength_spec (bow : List Bool) (idx : Nat) (h : idx < bow.le
 
 /-! ## MeCab provider -/
 
-theorem mem_lenLoop (oovs : List OovDef) (offset n ll cnt i0 : Nat) (x : Node) :
-    x ∈ lenLoop oovs offset n ll cnt i0 ↔
-    ∃ d ∈ oovs, ∃ i, i0 ≤ i ∧ i < i0 + cnt ∧ min (offset + i) n - offset ≤ ll ∧
+theorem mem_lenLoop (stop : Bool) (oovs : List OovDef) (offset n ll cnt i0 : Nat) (x : Node) :
+    x ∈ lenLoop stop oovs offset n ll cnt i0 ↔
+    ∃ d ∈ oovs, ∃ i, i0 ≤ i ∧ i < i0 + cnt ∧
+      (min (offset + i) n - offset ≤ ll ∧ (stop = true → i ≤ min (offset + i) n - offset)) ∧
       x = mkNode offset (offset + (min (offset + i) n - offset)) d := by
   induction cnt generalizing i0 with
   | zero =>
@@ -240,14 +241,19 @@ theorem mem_lenLoop (oovs : List OovDef) (offset n ll cnt i0 : Nat) (x : Node) :
     split
     · rename_i hgt
       simp only [List.not_mem_nil, false_iff]
-      rintro ⟨d, _, i, h1, _, h3, _⟩
-      have : min (offset + i0) n - offset ≤ min (offset + i) n - offset := by omega
-      omega
+      rintro ⟨d, _, i, h1, _, ⟨h3, h4⟩, _⟩
+      simp only [Bool.or_eq_true, decide_eq_true_eq, Bool.and_eq_true] at hgt
+      rcases hgt with hgt | ⟨hs, hgt⟩
+      · have : min (offset + i0) n - offset ≤ min (offset + i) n - offset := by omega
+        omega
+      · have := h4 hs
+        omega
     · rename_i hle
+      simp only [Bool.or_eq_true, decide_eq_true_eq, Bool.and_eq_true, not_or, not_and, Nat.not_lt] at hle
       rw [List.mem_append, ih (i0 + 1), List.mem_map]
       constructor
       · rintro (⟨d, hd, rfl⟩ | ⟨d, hd, i, h1, h2, h3, rfl⟩)
-        · exact ⟨d, hd, i0, Nat.le_refl _, by omega, by omega, rfl⟩
+        · exact ⟨d, hd, i0, Nat.le_refl _, by omega, ⟨by omega, hle.2⟩, rfl⟩
         · exact ⟨d, hd, i, by omega, by omega, h3, rfl⟩
       · rintro ⟨d, hd, i, h1, h2, h3, rfl⟩
         by_cases hi : i = i0
@@ -259,13 +265,15 @@ theorem mem_lenLoop (oovs : List OovDef) (offset n ll cnt i0 : Nat) (x : Node) :
 the class has a behaviour line `ci` and unknown-word lines `oovs`; it is always invoked or nothing exists
 yet; for every line `d` a grouped candidate over the whole run (if grouping) and candidates of
 `1..length` characters that stay inside the text and inside the run (one less when grouping, the whole
-run being the grouped candidate) -/
+run being the grouped candidate); for the repaired loop (`cfg.stopAtEnd`) a candidate of `i` characters exists only
+where `i` characters are left -/
 def MecabSpec (cfg : MecabCfg) (n offset charLen created ct : Nat) (x : Node) : Prop :=
   ∃ ci oovs d, findKey ct cfg.cats = some ci ∧ (ci.invoke = true ∨ created = 0) ∧
     findKey ci.ctype cfg.oovs = some oovs ∧ d ∈ oovs ∧
     ((ci.group = true ∧ x = mkNode offset (offset + charLen) d) ∨
      (∃ i, 1 ≤ i ∧ i ≤ ci.length ∧
-        min (offset + i) n - offset ≤ (if ci.group then charLen - 1 else charLen) ∧
+        (min (offset + i) n - offset ≤ (if ci.group then charLen - 1 else charLen) ∧
+          (cfg.stopAtEnd = true → i ≤ min (offset + i) n - offset)) ∧
         x = mkNode offset (offset + (min (offset + i) n - offset)) d))
 
 theorem mem_mecabClass (cfg : MecabCfg) (n offset charLen created ct : Nat) (x : Node) :
